@@ -90,7 +90,9 @@ func newSpecialType[T any](b *battery[T], cmp bool) *specialType {
 }
 
 func addCmp[T comparable](l *[]*specialType, b *battery[T]) {
-	b.same = func(x, y T) bool { return x == y }
+	if b.same == nil { // preset for types where == is not what "the same value" means (NaN) or may panic (interfaces holding slices)
+		b.same = func(x, y T) bool { return x == y }
+	}
 	st := newSpecialType(b, true)
 	st.run = func(c Special) pbt.Outcome { return runCmp(b, c) }
 	*l = append(*l, st)
@@ -248,7 +250,7 @@ func runCmp[T comparable](b *battery[T], c Special) pbt.Outcome {
 		}
 		out.Labels = append(out.Labels, leadClass(c.Lead), "args="+argsClass(len(args)))
 		out.NonTrivial = (len(args) >= 2 && (distinct || first > 0)) || (len(args) >= 1 && liar)
-		if got := typ.Coal(args...); got != want {
+		if got := typ.Coal(args...); !b.same(got, want) {
 			var ds []string
 			if c.Lead > 0 {
 				ds = append(ds, fmt.Sprintf("%d x %s", c.Lead, es[idx[0]].desc))
